@@ -5,6 +5,7 @@ import av1parse as ap, streaminfo
 
 ID = "C18"
 LEVEL = "exploration"
+TAG_KEYS = True   # violation keys get the configuration feature tag appended (engine.feature_tag)
 RULE = ("Hypothesis draws RC mode 0/1/2 x min/max QP pairs (incl. min==max, 0, 62/63) x fixed qindex offsets per layer / key frame x qp-file x 1/2-pass x "
         "recode loop x easy/hard content x GOP shapes; every coded frame header (shown or hidden) is parsed and base_q_idx compared with the bounds: RC 1/2: "
         "Q[min_qp] <= base_q_idx <= Q[max_qp]; CQP with scaling: Q[1] <= base_q_idx <= Q[63] (the library documents min/max as RC-only and substitutes 1/63); "
